@@ -201,33 +201,45 @@ def check(case, ctx):
                 ok = bool(np.all(np.abs(d1[sel] - d2[sel]) <= 1e-6 * np.abs(d1[sel]) + 1e-8 * (1 + sc) + allow))
                 ctx.require(ok, 'gradient-presentation-dependent', f'[{cfg}] d/d{n}: original {d1.tolist()} transformed (mapped back) {d2.tolist()}', config=cfg, sr=kind)
     # viterbi derivation weight
-    vref = reference('viterbi')
+    # (on the spec as drawn, not the rescaled one: all weights are <= 1, which is all the max-plus reference needs, and weights of
+    # exactly one give the exact ties between rules and zero-cost cycles on which tie-breaking by rule order matters)
+    specv, specv2 = spec0, present(spec0, tr)[0]
+    if gen_fgg.is_recursive(spec0):
+        vref, rounds = admit.viterbi_reference(spec0)
+        vref = vref[start] if rounds is not None else None
+    else:
+        vref = of.NumEval(spec0, of.MaxPlusOps).nonrecursive()[start]
+    if vref is None:
+        vref = reference('viterbi'); specv, specv2 = spec, spec2
     shape = np.asarray(vref).shape
     assts = [a for a in itertools.product(*[range(s) for s in shape]) if np.isfinite(vref[a] if a else vref)]
-    if assts:
-        a = assts[0]
+    if len(assts) > 3: assts = [assts[0], assts[len(assts) // 2], assts[-1]]
+    for a in assts:
         try:
-            f1, _ = gen_fgg.build(spec, 'viterbi', torch.float64)
-            f2, _ = gen_fgg.build(spec2, 'viterbi', torch.float64, explicit_ids=tr['explicit_ids'], range_domains=tr['range_domains'],
+            f1, _ = gen_fgg.build(specv, 'viterbi', torch.float64)
+            f2, _ = gen_fgg.build(specv2, 'viterbi', torch.float64, explicit_ids=tr['explicit_ids'], range_domains=tr['range_domains'],
                                   node_prefix=tr['id_prefix'], edge_prefix=tr['id_prefix'] + 'e', start_last=tr.get('start_last', False))
             a2 = tuple(tr['value_perms'][nl][v] for nl, v in zip(stype, a))
             vsr = fggs.ViterbiSemiring(dtype=torch.float64)
             d1 = ctx.call('viterbi[original]', fggs.viterbi, f1, tuple(a), semiring=vsr)
             d2 = ctx.call('viterbi[transformed]', fggs.viterbi, f2, a2, semiring=vsr)
-            lw1 = {n: np.log(np.asarray(t['weights'], dtype=float)) for n, t in spec['terminals'].items()}
-            lw2 = {n: np.log(np.asarray(t['weights'], dtype=float)) for n, t in spec2['terminals'].items()}
             with np.errstate(divide='ignore'):
-                w1 = c04.deriv_weight(d1, f1, f1.start, a, None, spec, lw1)
-                w2 = c04.deriv_weight(d2, f2, f2.start, a2, None, spec2, lw2)
+                lw1 = {n: np.log(np.asarray(t['weights'], dtype=float)) for n, t in specv['terminals'].items()}
+                lw2 = {n: np.log(np.asarray(t['weights'], dtype=float)) for n, t in specv2['terminals'].items()}
+                w1 = c04.deriv_weight(d1, f1, f1.start, a, None, specv, lw1)
+                w2 = c04.deriv_weight(d2, f2, f2.start, a2, None, specv2, lw2)
             opt = float(vref[a] if a else vref)
             tolv = 1e-9 * (1 + abs(opt))
             ctx.require(abs(w1 - w2) <= tolv and abs(w1 - opt) <= tolv, 'viterbi-weight-presentation-dependent',
                         f'start asst {a}: original derivation weight {w1}, transformed {w2}, optimum {opt}')
             ctx.label('viterbi-compared')
         except c04.Malformed as m:
-            ctx.violation('malformed-derivation', str(m))
+            ctx.violation('malformed-derivation', str(m)); break
+        except RecursionError:
+            ctx.violation('malformed-derivation', f'start asst {a}: derivation tree is cyclic / too deep'); break
         except Exception as e:
             if not ctx.violations: raise
+            break
     n_t = sum([t_rule, t_node or t_edge, tr['explicit_ids'], tr['rename_nl'] or tr['rename_el'], t_val])
     ctx.nontrivial = n_t >= 2 and len(spec['rules']) >= 2
 
